@@ -600,6 +600,11 @@ impl Stdfs {
             return Ok(());
         }
 
+        // Copying something into its own subtree would never converge
+        if dst_root.starts_with(&src_root) {
+            return Err(format!("can't copy {} into itself {}", src_root.display(), dst_root.display()).as_str().into());
+        }
+
         // Determine the given modes
         let dir_mode = match cp.mode {
             Some(x) if cp.cdirs || !cp.cfiles => Some(x),
